@@ -57,7 +57,30 @@ def _flatten(node, op):
     return [node]
 
 
+def _reseed_mask(ctx, rep):
+    """reseed() folds the third and fourth byte from the end into the seed for every value that has them: singles (4 bytes)
+    and doubles (8), not integers (2)."""
+    rs = ctx.fn('pcbasic/basic/values/randomiser.py:Randomiser.reseed')
+    guards = [i for i in own_nodes(rs) if isinstance(i, ast.If) and isinstance(i.test, ast.Compare) and norm(i.test.left) == 'len(s)'
+              and any(isinstance(a, ast.Assign) and norm(a.targets[0]) == 'mask' for a in i.body)]
+    ok = False
+    table = None
+    if len(guards) == 1:
+        t = guards[0].test
+        k = ctx.fold(t.comparators[0])
+        if isinstance(k, int) and len(t.ops) == 1:
+            import operator
+            ops = {ast.Gt: operator.gt, ast.GtE: operator.ge, ast.Lt: operator.lt, ast.LtE: operator.le, ast.Eq: operator.eq, ast.NotEq: operator.ne}
+            f = ops.get(type(t.ops[0]))
+            if f:
+                table = dict((n, f(n, k)) for n in (2, 4, 8))
+                ok = table == {2: False, 4: True, 8: True}
+    rep.ob('reseed.mask-for-singles-and-doubles', 'reseed: the mask bytes are taken for 4- and 8-byte values, not for 2-byte ones', ok,
+           'by value size: %r -- RANDOMIZE with a single whose low mantissa bytes are not zero (1.1, 40000, TIMER) no longer gives the reference sequence' % (table,), ctx.where(rs))
+
+
 def check(ctx, rep):
+    _reseed_mask(ctx, rep)
     cls = ctx.cls(R + ':Randomiser')
     ca = class_assigns(cls)
     consts = {}
@@ -193,6 +216,8 @@ def variants(ctx):
                                             '%s = %s' % (name, val))
 
     return [
+        mu.Variant('reseed-mask-skips-singles', 'break', 'pcbasic/basic/values/randomiser.py',
+                   lambda tree: mu.replace_expr(mu.find_def(tree, 'Randomiser.reseed'), mu.text_is('len(s) >= 4'), 'len(s) > 4'), expect='reseed.mask-for-singles-and-doubles'),
         Va('randomize-rounds-every-argument', 'break', 'pcbasic/basic/implementation.py', lambda tree: _dedent_round(mu.find_def(tree, 'Implementation.randomize_')), expect='randomize.argument'),
         Va('rnd-positive-argument-does-not-advance', 'break', R, in_fn('Randomiser.rnd_', _cycle_only_negative), expect='rnd.cycle'),
         Va('multiplier-3-mod-4', 'break', R, set_const('_multiplier', '214015'), expect='hull-dobell'),
